@@ -39,8 +39,22 @@ import (
 
 type ToolDef struct {
 	Name string `json:"name"`
-	Kind string `json:"kind"` // inv | str | both
+	Kind string `json:"kind"` // inv | str | both | none (a BaseTool that implements neither run interface)
 	Via  string `json:"via"`  // infer | new | raw | inferopt   (raw and inferopt tools look at their tool options)
+	// its Info call fails
+	InfoErr bool `json:"info_err,omitempty"`
+}
+
+// convTools cannot take this tool
+func (d ToolDef) bad() bool { return d.InfoErr || d.Kind == "none" }
+
+func anyBad(l []ToolDef) bool {
+	for _, d := range l {
+		if d.bad() {
+			return true
+		}
+	}
+	return false
 }
 
 func (d ToolDef) sees() bool { return d.Via == "raw" || d.Via == "inferopt" }
@@ -59,7 +73,7 @@ type Behav struct {
 type Call struct {
 	ID   string `json:"id"`
 	Name string `json:"name"`
-	K    int    `json:"k"` // arguments are {"k":K}; K indexes the behaviour table
+	K    int    `json:"k"` // arguments are {"k":K}; K indexes the behaviour table; -1 = malformed arguments
 }
 
 type Case struct {
@@ -125,7 +139,13 @@ func (c *Case) nodeOptions(rc *recorder) ([]compose.ToolsNodeOption, error) {
 	return out, nil
 }
 
-func argsOf(k int) string { return fmt.Sprintf(`{"k":%d}`, k) }
+// K = -1: arguments that no tool of the harness can parse (the tool fails before its body runs)
+func argsOf(k int) string {
+	if k < 0 {
+		return `{"k":"x"}`
+	}
+	return fmt.Sprintf(`{"k":%d}`, k)
+}
 
 const handlerErrCode = 199
 
@@ -155,7 +175,17 @@ type recorder struct {
 	producers sync.WaitGroup
 	nprod     int
 	nprodDone int
-	nClosed   int // producers that saw their stream closed by the consumer
+	nClosed   int       // producers that saw their stream closed by the consumer
+	peer      *recorder // shared-node runs: the executions of the concurrent peer call (told apart by a ctx value) go here
+}
+
+type peerKey struct{}
+
+func (rc *recorder) pick(ctx context.Context) *recorder {
+	if rc.peer != nil && ctx.Value(peerKey{}) != nil {
+		return rc.peer
+	}
+	return rc
 }
 
 func (rc *recorder) begin(ctx context.Context, name, args, tag string) xcall {
@@ -199,6 +229,7 @@ func (b Behav) outChunks(tag, name string) []string {
 }
 
 func (rc *recorder) invoke(ctx context.Context, name string, k int, tag string) (string, error) {
+	rc = rc.pick(ctx)
 	x := rc.begin(ctx, name, argsOf(k), tag)
 	defer rc.done(x)
 	b, ok := rc.behav(k)
@@ -224,6 +255,7 @@ func prefixFirst(name string, cs []string) []string {
 }
 
 func (rc *recorder) stream(ctx context.Context, name string, k int, tag string) (*schema.StreamReader[string], error) {
+	rc = rc.pick(ctx)
 	x := rc.begin(ctx, name, argsOf(k), tag)
 	defer rc.done(x)
 	b, ok := rc.behav(k)
@@ -366,8 +398,20 @@ func (t *utilBoth) StreamableRun(ctx context.Context, a string, o ...tool.Option
 	return t.s.StreamableRun(ctx, a, o...)
 }
 
+type badInfo struct{}
+
+func (badInfo) Info(context.Context) (*schema.ToolInfo, error) {
+	return nil, errors.New("harness: no tool info")
+}
+
 func buildTool(rc *recorder, d ToolDef) (tool.BaseTool, error) {
 	name := d.Name
+	if d.InfoErr {
+		return badInfo{}, nil
+	}
+	if d.Kind == "none" {
+		return &rawBase{name: name, rc: rc}, nil
+	}
 	invFn := func(ctx context.Context, in argT) (string, error) { return rc.invoke(ctx, name, in.K, "") }
 	strFn := func(ctx context.Context, in argT) (*schema.StreamReader[string], error) {
 		return rc.stream(ctx, name, in.K, "")
@@ -440,12 +484,14 @@ func buildNode(rc *recorder) (*compose.ToolsNode, error) {
 	switch c.Handler {
 	case "ok":
 		conf.UnknownToolsHandler = func(ctx context.Context, name, input string) (string, error) {
+			rc := rc.pick(ctx)
 			x := rc.begin(ctx, name, input, "")
 			defer rc.done(x)
 			return "unk:" + name + ":" + input, nil
 		}
 	case "err":
 		conf.UnknownToolsHandler = func(ctx context.Context, name, input string) (string, error) {
+			rc := rc.pick(ctx)
 			x := rc.begin(ctx, name, input, "")
 			defer rc.done(x)
 			return "", &toolErr{handlerErrCode}
@@ -628,63 +674,10 @@ func derivePi(c *Case, completed []xcall) []int {
 	return pi
 }
 
-func runOne(c *Case, mode, host string) (o RunObs) {
-	o.Mode, o.Host = mode, host
-	rc := &recorder{c: c}
-	ctx := context.Background()
-	tn, err := buildNode(rc)
-	if err != nil {
-		o.Class, o.ErrMsg = "setup", short(err.Error())
-		return
-	}
-	msg := c.message()
-	n := len(c.Calls)
-	nopts, err := c.nodeOptions(rc)
-	if err != nil {
-		o.Class, o.ErrMsg = "setup", short(err.Error())
-		return
-	}
-
-	var inv func() ([]*schema.Message, error)
-	var str func() (*schema.StreamReader[[]*schema.Message], error)
-	if host == "standalone" {
-		inv = func() ([]*schema.Message, error) { return tn.Invoke(ctx, msg, nopts...) }
-		str = func() (*schema.StreamReader[[]*schema.Message], error) { return tn.Stream(ctx, msg, nopts...) }
-	} else {
-		g := compose.NewGraph[*schema.Message, []*schema.Message]()
-		last := "tools"
-		err = g.AddToolsNode("tools", tn)
-		if err == nil && mode == "concat" {
-			last = "after"
-			err = g.AddLambdaNode("after", compose.InvokableLambda(func(_ context.Context, in []*schema.Message) ([]*schema.Message, error) {
-				return in, nil
-			}))
-			if err == nil {
-				err = g.AddEdge("tools", "after")
-			}
-		}
-		if err == nil {
-			err = g.AddEdge(compose.START, "tools")
-		}
-		if err == nil {
-			err = g.AddEdge(last, compose.END)
-		}
-		var r compose.Runnable[*schema.Message, []*schema.Message]
-		if err == nil {
-			r, err = g.Compile(ctx)
-		}
-		if err != nil {
-			o.Class, o.ErrMsg = "setup", short(err.Error())
-			return
-		}
-		var gopts []compose.Option
-		if len(nopts) > 0 {
-			gopts = append(gopts, compose.WithToolsNodeOption(nopts...))
-		}
-		inv = func() ([]*schema.Message, error) { return r.Invoke(ctx, msg, gopts...) }
-		str = func() (*schema.StreamReader[[]*schema.Message], error) { return r.Stream(ctx, msg, gopts...) }
-	}
-
+// one call of the node / the compiled graph, observed
+func observe(o *RunObs, mode string, n int, inv func() ([]*schema.Message, error),
+	str func() (*schema.StreamReader[[]*schema.Message], error)) {
+	var err error
 	switch mode {
 	case "invoke":
 		var out []*schema.Message
@@ -724,12 +717,14 @@ func runOne(c *Case, mode, host string) (o RunObs) {
 			}
 		}
 	}
+}
 
-	// let the tools that were started on goroutines finish (they always do: after a panic of
-	// the inline task the node does not wait for them), then take the execution record
+// let the tools that were started on goroutines finish (they always do: after a panic of the
+// inline task the node does not wait for them), then take the execution record
+func (rc *recorder) settle(o *RunObs, c *Case) {
 	expect := 0
 	if o.Class != "setup" {
-		expect = len(c.Calls)
+		expect = c.bodies()
 	}
 	for w := 0; w < 400; w++ {
 		rc.mu.Lock()
@@ -765,6 +760,123 @@ func runOne(c *Case, mode, host string) (o RunObs) {
 		}
 		return a.Tag < b.Tag
 	})
+}
+
+// the number of calls whose tool body (or the unknown-tool handler) is entered if the message is accepted
+func (c *Case) bodies() int {
+	n := 0
+	for _, cl := range c.Calls {
+		if cl.K >= 0 || c.kindOf(cl.Name) == "" {
+			n++
+		}
+	}
+	return n
+}
+
+// the peer call of a shared-node run: the same ids, in the same positions, on other calls
+// (the call list reversed; a single call gets another behaviour)
+func (c *Case) peerCase() *Case {
+	p := *c
+	n := len(c.Calls)
+	p.Calls = make([]Call, n)
+	for i := range c.Calls {
+		src := c.Calls[n-1-i]
+		p.Calls[i] = Call{ID: c.Calls[i].ID, Name: src.Name, K: src.K}
+	}
+	if n == 1 && p.Calls[0].K >= 0 {
+		p.Calls[0].K = (p.Calls[0].K + 1) % len(c.Behavs)
+	}
+	return &p
+}
+
+// host: standalone | graph | shared (standalone, with a second call running concurrently on the same node)
+func runOne(c *Case, mode, host string) (o RunObs, peer *RunObs, pc *Case) {
+	o.Mode, o.Host = mode, host
+	rc := &recorder{c: c}
+	ctx := context.Background()
+	tn, err := buildNode(rc)
+	if err != nil {
+		if anyBad(c.Tools) {
+			// NewToolNode refuses the configuration: there is no node to call; every way of
+			// using it is "an error, nothing runs"
+			o.Class, o.Err, o.ErrMsg = "err", classify(err), short(err.Error())
+			return
+		}
+		o.Class, o.ErrMsg = "setup", short(err.Error())
+		return
+	}
+	msg := c.message()
+	n := len(c.Calls)
+	nopts, err := c.nodeOptions(rc)
+	if err != nil {
+		o.Class, o.ErrMsg = "setup", short(err.Error())
+		return
+	}
+
+	var inv func() ([]*schema.Message, error)
+	var str func() (*schema.StreamReader[[]*schema.Message], error)
+	if host != "graph" {
+		inv = func() ([]*schema.Message, error) { return tn.Invoke(ctx, msg, nopts...) }
+		str = func() (*schema.StreamReader[[]*schema.Message], error) { return tn.Stream(ctx, msg, nopts...) }
+	} else {
+		g := compose.NewGraph[*schema.Message, []*schema.Message]()
+		last := "tools"
+		err = g.AddToolsNode("tools", tn)
+		if err == nil && mode == "concat" {
+			last = "after"
+			err = g.AddLambdaNode("after", compose.InvokableLambda(func(_ context.Context, in []*schema.Message) ([]*schema.Message, error) {
+				return in, nil
+			}))
+			if err == nil {
+				err = g.AddEdge("tools", "after")
+			}
+		}
+		if err == nil {
+			err = g.AddEdge(compose.START, "tools")
+		}
+		if err == nil {
+			err = g.AddEdge(last, compose.END)
+		}
+		var r compose.Runnable[*schema.Message, []*schema.Message]
+		if err == nil {
+			r, err = g.Compile(ctx)
+		}
+		if err != nil {
+			o.Class, o.ErrMsg = "setup", short(err.Error())
+			return
+		}
+		var gopts []compose.Option
+		if len(nopts) > 0 {
+			gopts = append(gopts, compose.WithToolsNodeOption(nopts...))
+		}
+		inv = func() ([]*schema.Message, error) { return r.Invoke(ctx, msg, gopts...) }
+		str = func() (*schema.StreamReader[[]*schema.Message], error) { return r.Stream(ctx, msg, gopts...) }
+	}
+
+	var peerDone chan struct{}
+	if host == "shared" {
+		pc = c.peerCase()
+		rc.peer = &recorder{c: pc}
+		peer = &RunObs{Mode: mode, Host: "shared-peer"}
+		pctx := context.WithValue(ctx, peerKey{}, true)
+		pmsg := pc.message()
+		peerDone = make(chan struct{})
+		go func() {
+			defer close(peerDone)
+			observe(peer, mode, len(pc.Calls),
+				func() ([]*schema.Message, error) { return tn.Invoke(pctx, pmsg, nopts...) },
+				func() (*schema.StreamReader[[]*schema.Message], error) { return tn.Stream(pctx, pmsg, nopts...) })
+		}()
+	}
+
+	observe(&o, mode, n, inv, str)
+	if peerDone != nil {
+		<-peerDone
+	}
+	rc.settle(&o, c)
+	if peer != nil {
+		rc.peer.settle(peer, pc)
+	}
 	return
 }
 
@@ -854,7 +966,7 @@ func (o *RunObs) coqConcat() string {
 
 // "" if the run cannot be expressed as a model observation (hang, foreign panic, setup error)
 func (o *RunObs) coq() string {
-	host := "HStandalone"
+	host := "HStandalone" // also for "shared": the concurrent peer call must not matter
 	if o.Host == "graph" {
 		host = "HGraph"
 	}
@@ -916,8 +1028,8 @@ func (c *Case) coq(runs []string) string {
 	tdefs := func(l []ToolDef) string {
 		items := make([]string, len(l))
 		for i, t := range l {
-			k := map[string]string{"inv": "KInv", "str": "KStr", "both": "KBoth"}[t.Kind]
-			items[i] = lib.CoqApp("T", S(t.Name), k, lib.CoqBool(t.sees()))
+			k := map[string]string{"inv": "(Some KInv)", "str": "(Some KStr)", "both": "(Some KBoth)", "none": "None"}[t.Kind]
+			items[i] = lib.CoqApp("T", S(t.Name), k, lib.CoqBool(t.sees()), lib.CoqBool(!t.InfoErr))
 		}
 		return lib.CoqList(items)
 	}
@@ -975,7 +1087,7 @@ func (c *Case) kindOf(name string) string { k, _ := c.lookup(name); return k }
 
 func (c *Case) spec(streamed bool) spec {
 	s := spec{inDomain: true, first: -1, firstIdx: -1}
-	if !c.RoleOK || len(c.Calls) == 0 {
+	if !c.RoleOK || len(c.Calls) == 0 || anyBad(c.Tools) || anyBad(c.effTools()) {
 		s.pre = true
 		return s
 	}
@@ -1004,6 +1116,13 @@ func (c *Case) spec(streamed bool) spec {
 		tag := ""
 		if sees {
 			tag = c.tag()
+		}
+		if cl.K < 0 { // arguments the tool cannot parse: it fails when called, its body never runs
+			s.errs = append(s.errs, 0)
+			callFails(i, 0)
+			s.msgs = append(s.msgs, nil)
+			s.tags = append(s.tags, tag)
+			continue
 		}
 		b := c.Behavs[cl.K]
 		if b.Panic {
@@ -1072,7 +1191,7 @@ func (c *Case) oracle(o *RunObs) (string, string) {
 		return "", "" // standalone: there is no enclosing run; the panic reaches the caller (recorded)
 	}
 	// executions: every call exactly once, unless the message is rejected up front
-	wantExec := len(c.Calls)
+	wantExec := c.bodies()
 	if s.pre {
 		wantExec = 0
 	}
@@ -1201,7 +1320,7 @@ func genCase(r *lib.Rng, tier string) *Case {
 	nt := r.Range(1, 4)
 	perm := r.Perm(len(toolNames))
 	for i := 0; i < nt; i++ {
-		c.Tools = append(c.Tools, ToolDef{toolNames[perm[i]], r.Pick([]string{"inv", "str", "both"}), r.Pick(vias)})
+		c.Tools = append(c.Tools, ToolDef{Name: toolNames[perm[i]], Kind: r.Pick([]string{"inv", "str", "both"}), Via: r.Pick(vias)})
 	}
 	if r.Chance(1, 20) {
 		// the same name twice in the configuration: same kind and same attitude towards options, built
@@ -1211,17 +1330,33 @@ func genCase(r *lib.Rng, tier string) *Case {
 		d.Via = sameSeesVia(r, d.Via)
 		c.Tools = append(c.Tools, d)
 	}
+	if r.Chance(1, 40) { // a tool NewToolNode cannot take
+		i := r.Intn(len(c.Tools))
+		if r.Chance(1, 2) {
+			c.Tools[i].Kind = "none"
+		} else {
+			c.Tools[i].InfoErr = true
+		}
+	}
 	names := []string{}
 	for _, t := range c.Tools {
 		names = append(names, t.Name)
 	}
-	if r.Chance(1, 8) { // WithToolList: the call brings its own tool set
+	if r.Chance(1, 6) { // WithToolList: the call brings its own tool set
 		l := []ToolDef{}
 		if !r.Chance(1, 6) {
 			p2 := r.Perm(len(toolNames))
 			for i, m := 0, r.Range(1, 3); i < m; i++ {
-				l = append(l, ToolDef{toolNames[p2[i]], r.Pick([]string{"inv", "str", "both"}), r.Pick(vias)})
+				l = append(l, ToolDef{Name: toolNames[p2[i]], Kind: r.Pick([]string{"inv", "str", "both"}), Via: r.Pick(vias)})
 				names = append(names, toolNames[p2[i]])
+			}
+		}
+		if len(l) > 0 && r.Chance(1, 5) { // a tool the call's convTools cannot take
+			i := r.Intn(len(l))
+			if r.Chance(1, 2) {
+				l[i].Kind = "none"
+			} else {
+				l[i].InfoErr = true
 			}
 		}
 		c.CallTools = &l
@@ -1292,6 +1427,9 @@ func genCase(r *lib.Rng, tier string) *Case {
 		}
 		c.Calls = append(c.Calls, cl)
 	}
+	if r.Chance(1, 25) { // arguments no tool can parse
+		c.Calls[r.Intn(n)].K = -1
+	}
 	if unknown && r.Chance(1, 2) { // make sure at least one unknown call exists
 		c.Calls[r.Intn(n)].Name = r.Pick(unknownNames)
 	}
@@ -1328,14 +1466,15 @@ func (engine) Decode(raw json.RawMessage) (any, error) {
 		return nil, err
 	}
 	for _, cl := range c.Calls {
-		if cl.K < 0 || cl.K >= len(c.Behavs) {
+		if cl.K < -1 || cl.K >= len(c.Behavs) {
 			return nil, fmt.Errorf("call refers to behaviour %d of %d", cl.K, len(c.Behavs))
 		}
 	}
 	return c, nil
 }
 
-var runPlan = [][2]string{{"invoke", "standalone"}, {"stream", "standalone"}, {"invoke", "graph"}, {"stream", "graph"}, {"concat", "graph"}}
+var runPlan = [][2]string{{"invoke", "standalone"}, {"stream", "standalone"}, {"invoke", "graph"}, {"stream", "graph"}, {"concat", "graph"},
+	{"invoke", "shared"}, {"stream", "shared"}}
 
 func (engine) Run(ci any) lib.Result {
 	c := ci.(*Case)
@@ -1347,7 +1486,7 @@ func (engine) Run(ci any) lib.Result {
 	cur = &interner{names: map[string]string{}}
 	defer func() { cur = nil }()
 	for _, p := range runPlan {
-		o := runOne(c, p[0], p[1])
+		o, peer, pc := runOne(c, p[0], p[1])
 		obs = append(obs, o)
 		if t := o.coq(); t != "" {
 			terms = append(terms, t)
@@ -1357,6 +1496,12 @@ func (engine) Run(ci any) lib.Result {
 		if res.Oracle == "" {
 			res.Oracle, res.Sig = c.oracle(&o)
 		}
+		if peer != nil {
+			obs = append(obs, *peer)
+			if res.Oracle == "" {
+				res.Oracle, res.Sig = pc.oracle(peer)
+			}
+		}
 	}
 	res.Obs = obs
 	if sendable {
@@ -1364,7 +1509,7 @@ func (engine) Run(ci any) lib.Result {
 	}
 	// distribution
 	kinds := map[string]bool{}
-	unknown, fails, panics, zero := 0, 0, 0, 0
+	unknown, fails, panics, zero, malformed := 0, 0, 0, 0, 0
 	for _, cl := range c.Calls {
 		k := c.kindOf(cl.Name)
 		if k == "" {
@@ -1372,6 +1517,10 @@ func (engine) Run(ci any) lib.Result {
 			continue
 		}
 		kinds[k] = true
+		if cl.K < 0 {
+			malformed++
+			continue
+		}
 		b := c.Behavs[cl.K]
 		if b.Panic {
 			panics++
@@ -1396,6 +1545,15 @@ func (engine) Run(ci any) lib.Result {
 	res.Tags = append(res.Tags, fmt.Sprintf("callopt:toollist:%v", c.CallTools != nil), fmt.Sprintf("callopt:tooloptions:%d", len(c.ToolOpts)))
 	if !c.RoleOK {
 		res.Tags = append(res.Tags, "malformed:role")
+	}
+	if malformed > 0 {
+		res.Tags = append(res.Tags, "malformed:arguments")
+	}
+	if anyBad(c.Tools) {
+		res.Tags = append(res.Tags, "malformed:configured-tool")
+	}
+	if c.CallTools != nil && anyBad(*c.CallTools) {
+		res.Tags = append(res.Tags, "malformed:call-list-tool")
 	}
 	ooo := false
 	for _, o := range obs {
@@ -1427,7 +1585,7 @@ func min(a, b int) int {
 	return b
 }
 
-// Shrink: drop calls, then delays, while the same oracle failure persists.
+// Shrink: drop calls, then call options, then delays, while the same oracle failure persists.
 func (engine) Shrink(ci any, stillFails func(any) bool) any {
 	c := ci.(*Case)
 	cur := *c
@@ -1440,6 +1598,20 @@ func (engine) Shrink(ci any, stillFails func(any) bool) any {
 				cur, changed = t, true
 				break
 			}
+		}
+	}
+	if cur.ToolOpts != nil {
+		t := cur
+		t.ToolOpts = nil
+		if stillFails(&t) {
+			cur = t
+		}
+	}
+	if cur.CallTools != nil {
+		t := cur
+		t.CallTools = nil
+		if stillFails(&t) {
+			cur = t
 		}
 	}
 	t := cur
